@@ -29,7 +29,7 @@ from checks.c01 import key_alphabet
 
 LANGS = ["typescript", "kotlin", "swift", "scala", "go", "python"]
 RULES = [None, "lowercase", "UPPERCASE", "PascalCase", "camelCase", "snake_case", "SCREAMING_SNAKE_CASE", "kebab-case", "SCREAMING-KEBAB-CASE", "Bogus"]
-SYM = "[-]"
+SYM = extract.PUA_CLASS
 
 
 def variant_words(tier):
